@@ -12,6 +12,7 @@ import numpy as np
 import common as C
 
 STATIC = ["Model/IMF.vo"]
+EXTRA_PROPS = ["C11b"]
 IMPORTS = "From SSP Require Import Model.Pk Model.IMF."
 EXT = {"zeros": "Zeros", "ext": "Extrapolate", "raise": "Raise"}
 
@@ -62,6 +63,8 @@ def seg_int(A, a, lo, up, k):
 
 
 def classify(f):
+    if f.get("nan_amplitudes") and f.get("segment_integral_below_pk_threshold"):
+        return "nan_amplitudes_segment_below_pk_threshold"
     if f["clause"] in ("bins need not align with breaks (documented): straddling bin holds the integral",
                        "arbitrary bins covering the range sum to N0 (documented)") and f.get("straddles"):
         return "binned_eval_straddle"
@@ -99,13 +102,20 @@ def run(chk):
         A = [float(x) for x in imf._A_comps]
         Ar = ref_A(a, mb)
         snap0 = (np.array(imf.mb, dtype=float).copy(), np.array(imf.a, dtype=float).copy(), np.array(imf._A_comps, dtype=float).copy(), float(imf.N0))
+        if not np.all(np.isfinite(A)):
+            # no finite normalisation at all: every clause fails as a consequence, reported once. The listed cause: some segment's un-normalised
+            # integral int m^a dm is below masses.Pk's ABSOLUTE 1e-15 threshold (steep slope on masses >~ 1e5), Pk returns NaN (C12 finding)
+            seg = [seg_int(1.0, a[i], mb[i], mb[i + 1], 1) for i in range(len(a))]
+            chk.fail("IMF integrates to N0 over its range", sp, dict(A_comps=[repr(x) for x in A], segment_integrals=seg),
+                     nan_amplitudes=True, segment_integral_below_pk_threshold=bool(any(0 < x < res * (1 + 1e-6) for x in seg)))
+            continue
         # ---- oracle on constants: continuity + normalisation -----------------
         for i in range(1, len(a)):
             l, r = A[i - 1] * mb[i] ** a[i - 1], A[i] * mb[i] ** a[i]
-            if abs(l - r) > 1e-9 * abs(l):
+            if not (abs(l - r) <= 1e-9 * abs(l)):
                 chk.fail("IMF is continuous at every break", sp, dict(break_=mb[i], left=l, right=r))
         tot = sum(seg_int(A[i], a[i], mb[i], mb[i + 1], 1) for i in range(len(a)))
-        if abs(tot - 1) > 1e-9:
+        if not (abs(tot - 1) <= 1e-9):
             chk.fail("IMF integrates to N0 over its range", sp, dict(integral_over_N0=tot))
         # evaluation points: inside, exact breaks, outside
         ms = []
